@@ -549,7 +549,7 @@ func (w *cworld) do(ctx context.Context, rng *rand.Rand, ks *keyspace, kind stri
 // partStatic: random topologies, no change after the client learnt them: first hop on the announced owner.
 func partStatic(run *mon.Run) {
 	rng := run.Rand("static")
-	nw := run.N(150, 3000)
+	nw := scale(run.N(150, 3000))
 	ctx := context.Background()
 	for wi := 0; wi < nw; wi++ {
 		o := worldOpts{shards: 1 + rng.Intn(12), replicas: rng.Intn(4), shards8: wi%2 == 1, gaps: rng.Intn(3) == 0, split: rng.Intn(2) == 0, views: rng.Intn(3) > 0,
@@ -638,8 +638,11 @@ func partStatic(run *mon.Run) {
 func partScripted(run *mon.Run) {
 	rng := run.Rand("scripted")
 	ctx := context.Background()
-	nw := run.N(40, 800)
+	nw := scale(run.N(40, 800))
 	cases := run.N(80, 120)
+	if raceBuild {
+		cases = 40
+	}
 	for wi := 0; wi < nw; wi++ {
 		m := 0
 		if wi%2 == 1 {
@@ -704,6 +707,9 @@ func partScripted(run *mon.Run) {
 				iss = w.doScripted(ctx, rng, ks, kind, arm)
 			}()
 			w.srv.ClearPlan()
+			if tainted(run, "scripted", w, iss) {
+				break
+			}
 			hm := hops(w.srv.Log()[from:])
 			for _, is := range iss {
 				hs := hm[is.UID]
@@ -724,6 +730,29 @@ func partScripted(run *mon.Run) {
 		}
 		w.close()
 	}
+}
+
+// scale reduces a case count in race builds (about 10x slower), so that both builds stay in the same wall-time range.
+func scale(n int) int {
+	if raceBuild {
+		return max(n/6, 2)
+	}
+	return n
+}
+
+const errClosingText = "rueidis client is closing or unable to connect redis"
+
+// tainted reports the client-made connection loss (see reconnect_test.go) once per world; the per-command rules are
+// not applied to a world in which it happened, because every one of them is then broken as a consequence.
+func tainted(run *mon.Run, part string, w *cworld, iss []issued) bool {
+	for _, is := range iss {
+		if _, e := resultString(is.Result); e == errClosingText {
+			run.Violation("node-unreachable-after-same-address-redirect", part+"|ErrClosing-while-client-open", map[string]any{"world": w.desc, "command": is.Key, "result": e,
+				"what": "the driver never closes or kills a connection in this part, yet a command failed with ErrClosing: the client closed a connection it still routes to"})
+			return true
+		}
+	}
+	return false
 }
 
 func errp(s string) *resp.V { v := resp.Err(s); return &v }
@@ -881,8 +910,11 @@ func (h *history) acceptableBetween(slot int, q1, q2 int64) (owners, importing m
 
 func partChaos(run *mon.Run) {
 	rng := run.Rand("chaos")
-	nw := run.N(10, 150)
+	nw := run.N(12, 150)
 	callers, ops := 8, run.N(350, 600)
+	if raceBuild { // this is the part the race detector is for: scaled less than the sequential parts
+		nw, ops = max(nw/2, 5), ops/3
+	}
 	for wi := 0; wi < nw; wi++ {
 		o := worldOpts{shards: 3 + rng.Intn(4), replicas: 2, shards8: wi%2 == 0, logReplies: true, seed: run.Seed*3001 + int64(wi)}
 		w, err := newCluster(rng, o)
@@ -927,7 +959,11 @@ func partChaos(run *mon.Run) {
 						continue
 					}
 					h.record(slot, "migstart", dst, func() { w.srv.Migrate(slot, dst) })
-					time.Sleep(time.Duration(50+crng.Intn(300)) * time.Microsecond)
+					// keep the slot in migration until the callers have sent some more commands (not a time span: the race build is much slower)
+					base, more := w.srv.Counter("recv"), int64(20+crng.Intn(120))
+					for i := 0; i < 4000 && w.srv.Counter("recv") < base+more; i++ {
+						time.Sleep(50 * time.Microsecond)
+					}
 					h.record(slot, "migend", dst, func() { w.srv.FinishMigration(slot) })
 					atomic.AddInt64(&migrations, 1)
 				case r < 9: // abrupt reassignment (the old owner just answers MOVED from now on)
@@ -1003,6 +1039,10 @@ func partChaos(run *mon.Run) {
 		run.Observe("chaos_migrations", atomic.LoadInt64(&migrations))
 		run.Observe("chaos_reassignments", atomic.LoadInt64(&reassigns))
 		run.Observe("chaos_failovers", atomic.LoadInt64(&failovers))
+		if tainted(run, "chaos", w, all) {
+			w.close()
+			continue
+		}
 		hm := hops(w.srv.Log())
 		for _, is := range all {
 			hs := hm[is.UID]
@@ -1027,7 +1067,11 @@ func partChaos(run *mon.Run) {
 				}
 			}
 			_, errStr := resultString(is.Result)
-			if errStr != "" && !strings.HasPrefix(errStr, "MOVED ") && !strings.HasPrefix(errStr, "ASK ") {
+			if errStr == rueidis.ErrDoCacheAborted.Error() {
+				// the server aborted the EXEC of the cached call's internal block (the topology changed between two of its
+				// commands): the documented outcome of DoCache in that case, not a routing matter
+				run.Observe("docache_aborted_by_exec", 1)
+			} else if errStr != "" && !strings.HasPrefix(errStr, "MOVED ") && !strings.HasPrefix(errStr, "ASK ") {
 				// nothing in this workload breaks connections or withdraws slots: any other error is a command that got lost on the way
 				run.Violation("unexplained-error", "chaos|"+is.Kind+"|"+firstLine(errStr), map[string]any{"world": w.desc, "command": is.Key, "error": errStr, "hops": hopStrings(hs)})
 			}
@@ -1071,6 +1115,7 @@ func TestC19(t *testing.T) {
 	timed("scripted", partScripted)
 	timed("chaos", partChaos)
 	timed("isolated", partCrashIsolated)
+	timed("reconnect", func(r *mon.Run) { partReconnectRace(r, t) })
 	run.Require("wellformed_slots_compared", "wellformed_shards_compared", "mutated_replies_parsed", "first_hop_on_owner", "moved_followed", "ask_followed", "asking_preceded",
 		"redirect_loops_bounded", "final_reply_checked", "final_error_checked", "executed_on_owner", "executed_on_importing_node_under_asking", "chaos_migrations", "chaos_failovers", "chaos_reassignments")
 }
